@@ -118,6 +118,8 @@ pub struct Cluster {
     pub think_max: u64,
     /// Maximum rows per page of system-table answers (0 = honour the client).
     pub system_page_rows: usize,
+    /// System-table reads may be answered with empty non-final pages (legal in CQL).
+    pub system_empty_pages: bool,
     pub schema_version: [u8; 16],
     /// Every statement id ever handed out (observer's knowledge, independent of eviction).
     pub all_ids: BTreeMap<Vec<u8>, String>,
@@ -149,6 +151,7 @@ impl Cluster {
             think_min: 50_000,
             think_max: 500_000,
             system_page_rows: 0,
+            system_empty_pages: false,
             schema_version: [7u8; 16],
             all_ids: BTreeMap::new(),
         }
@@ -1068,8 +1071,23 @@ fn system_query(
     if w.cluster.system_page_rows > 0 {
         page = page.min(w.cluster.system_page_rows);
     }
+    // An empty page that is not the last one: the state keeps the offset and counts the
+    // empty pages served in a row (at most 2).
+    let empties = params.paging_state.as_ref().and_then(|ps| ps.get(8).copied()).unwrap_or(0);
+    let serve_empty = w.cluster.system_empty_pages
+        && offset < rows.len()
+        && empties < 2
+        && crate::tape::chance("sys:empty_page", 1, 3);
+    if serve_empty {
+        page = 0;
+        w.probe("system_empty_page");
+    }
     let end = offset + page;
-    let paging_state = if end < rows.len() {
+    let paging_state = if serve_empty {
+        let mut st = (end as u64).to_be_bytes().to_vec();
+        st.push(empties + 1);
+        Some(st)
+    } else if end < rows.len() {
         Some((end as u64).to_be_bytes().to_vec())
     } else {
         None
